@@ -2,6 +2,7 @@ package rt
 
 import (
 	"fmt"
+	"math"
 	"reflect"
 
 	"github.com/hashicorp/terraform-plugin-framework/attr"
@@ -175,6 +176,49 @@ func (x *Ctx) refreshWalk(ms *spec.Msg, nv reflect.Value, before types.Object, h
 	}
 }
 
+// nudgeFloats replaces every finite float in v by the next representable number; it returns how many it changed.
+func nudgeFloats(v reflect.Value) int {
+	n := 0
+	switch v.Kind() {
+	case reflect.Ptr, reflect.Interface:
+		if !v.IsNil() {
+			n += nudgeFloats(v.Elem())
+		}
+	case reflect.Struct:
+		for i := 0; i < v.NumField(); i++ {
+			if v.Field(i).CanSet() || v.Field(i).Kind() == reflect.Ptr || v.Field(i).Kind() == reflect.Interface {
+				n += nudgeFloats(v.Field(i))
+			}
+		}
+	case reflect.Slice:
+		for i := 0; i < v.Len(); i++ {
+			n += nudgeFloats(v.Index(i))
+		}
+	case reflect.Map:
+		for _, k := range v.MapKeys() {
+			e := reflect.New(v.Type().Elem()).Elem()
+			e.Set(v.MapIndex(k))
+			if c := nudgeFloats(e); c > 0 {
+				v.SetMapIndex(k, e)
+				n += c
+			}
+		}
+	case reflect.Float32:
+		f := float32(v.Float())
+		if v.CanSet() && !math.IsNaN(float64(f)) && !math.IsInf(float64(f), 0) && f < math.MaxFloat32 {
+			v.SetFloat(float64(math.Nextafter32(f, float32(math.Inf(1)))))
+			n++
+		}
+	case reflect.Float64:
+		f := v.Float()
+		if v.CanSet() && !math.IsNaN(f) && !math.IsInf(f, 0) && f < math.MaxFloat64 {
+			v.SetFloat(math.Nextafter(f, math.Inf(1)))
+			n++
+		}
+	}
+	return n
+}
+
 func monC09(x *Ctx) {
 	s, ok := x.schemaOrViolate()
 	if !ok {
@@ -207,6 +251,13 @@ func monC09(x *Ctx) {
 				mode = []int{mDense, mMixed}[i%2]
 			}
 			src, sig := x.NewValue(fmt.Sprintf("%s/s%d", in, k), mode)
+			if k == 1 && i%5 == 2 {
+				// the new source is the previous one with every floating point number replaced by its neighbour
+				// (one unit in the last place): a refresh follows the smallest change there is
+				src, sig = x.NewValue(fmt.Sprintf("%s/s%d", in, 0), []int{mDense, mMixed}[i%2])
+				x.Count("float-neighbours-written", nudgeFloats(reflect.ValueOf(src)))
+				sig += "+ulp"
+			}
 			sigs += sig + "|"
 			before := deepCopyTF(obj).(types.Object)
 			x.Eval(1)
